@@ -21,7 +21,7 @@
    `serialization-partial` (a `serialization` list that is not a duplicate-free enumeration of all
    constructor attributes); C17_statement is the unguarded statement, refuted below. *)
 From Coq Require Import ZArith NArith Bool List String.
-From PcoreV Require Import Model.Base Model.Obj Proofs.ObjProofs Proofs.ObjDefine Model.ObjNest Proofs.ObjNestProofs.
+From PcoreV Require Import Model.Base Model.Obj Proofs.ObjProofs Proofs.ObjDefine Model.ObjNest Proofs.ObjNestProofs Proofs.ObjNestRound Proofs.ObjNestRep.
 Import ListNotations.
 
 (* ---- the layout: every declared constructor attribute (own, inherited, overriding — collectAttributes)
@@ -390,10 +390,83 @@ Theorem C17_nested_init_type_admits_instances :
 Proof. exact ninst_ninst_init. Qed.
 Print Assumptions C17_nested_init_type_admits_instances.
 
-(* PARTIAL: not proved for all types and values, evaluated on every constructed object of every run by the correspondence
-   (Corr/CorrC17.v nested_check): coercing the full init-hash form of an instance gives the instance back
-   (forall t v, nwf t -> ninst t v -> coerce t (to_init t v) = Some v), hence the named construction from nested init-hashes
-   equals the one from instances and the positional one; and InitHash followed by the named creator gives the object back. *)
+(* ---- depth pass of 2026-10-02: the two clauses that were only evaluated per constructed object are theorems for ALL
+        well-formed types and ALL instances (Proofs/ObjNestRound.v; induction over the type - a type contains the Object types
+        it refers to, so the nesting order of a world is the subterm order of `nty` - mutually over a type and its member /
+        attribute list).  `nwf` is the boolean well-formedness predicate; the correspondence evaluates it on the type of every
+        constructed object of every run (Corr/CorrC17.v nested_check), the Example below on the world Inner / Outer / Deep. ---- *)
+
+(* coerceTo of the full init-hash form of an instance (every nested object, at every depth, replaced by the Hash of all its
+   attributes by name) gives the instance back *)
+Theorem C17_nested_coerce_init_form :
+  forall t v, nwf t = true -> ninst t v = true -> coerce t (to_init t v) = Some v.
+Proof. exact coerce_to_init. Qed.
+Print Assumptions C17_nested_coerce_init_form.
+
+(* that form is an instance of typeAndInit(type): the named dispatcher takes it *)
+Theorem C17_nested_init_form_is_init_instance :
+  forall t v, nwf t = true -> ninst t v = true -> ninst_init t (to_init t v) = true.
+Proof. exact init_form_admitted. Qed.
+Print Assumptions C17_nested_init_form_is_init_instance.
+
+(* named construction from init-hashes = named construction from instances = positional construction: for every instance
+   NVObj n vals of a well-formed Object type, px.New with the single Hash {name_i => init-hash form of v_i} goes to the named
+   creator and builds that object; the named creator builds it from {name_i => v_i} (zipv); the positional creator builds it
+   from the tuple vals *)
+Theorem C17_nested_forms_build_one_object :
+  forall n attrs vals, nwf (NObj n attrs) = true -> ninst (NObj n attrs) (NVObj n vals) = true ->
+  nnew n attrs [NVHash (to_init_vals attrs vals)] = NOk (NVObj n vals)
+  /\ named_new n attrs (to_init_vals attrs vals) = NOk (NVObj n vals)
+  /\ named_new n attrs (zipv attrs vals) = NOk (NVObj n vals)
+  /\ positional_new n attrs vals = NOk (NVObj n vals).
+Proof. exact named_from_init. Qed.
+Print Assumptions C17_nested_forms_build_one_object.
+
+(* the InitHash round trip of the family: the named creator accepts InitHash(o) and rebuilds o, and px.New(T, o.InitHash())
+   dispatches to it (a declared value that was dropped from the hash comes back as the declared value: nvalue_eqb is sound) *)
+Theorem C17_nested_init_hash_roundtrip :
+  forall n attrs vals, nwf (NObj n attrs) = true -> ninst (NObj n attrs) (NVObj n vals) = true ->
+  named_new n attrs (ninit_hash attrs vals) = NOk (NVObj n vals)
+  /\ nnew n attrs [NVHash (ninit_hash attrs vals)] = NOk (NVObj n vals).
+Proof. exact named_init_hash_roundtrip. Qed.
+Print Assumptions C17_nested_init_hash_roundtrip.
+
+(* with C17_nested_constructed_is_instance: whatever px.New builds from ANY argument list is rebuilt from its InitHash *)
+Theorem C17_nested_constructed_roundtrip :
+  forall n attrs args m vals, nwf (NObj n attrs) = true -> nnew n attrs args = NOk (NVObj m vals) ->
+  nnew n attrs [NVHash (ninit_hash attrs vals)] = NOk (NVObj m vals)
+  /\ coerce (NObj n attrs) (to_init (NObj n attrs) (NVObj m vals)) = Some (NVObj m vals).
+Proof. exact constructed_roundtrip. Qed.
+Print Assumptions C17_nested_constructed_roundtrip.
+
+(* EVERY form that denotes an instance (Model/ObjNest.v `repb t x v`: x is v, or agrees with v element by element / entry by
+   entry where an object may be given as a Hash whose keys are attribute names, holding under name_i a form of vals_i or nothing
+   when vals_i is the declared value - the forms named-init-hash and named-mixed of the harness, init-hashes with or without the
+   defaulted attributes, at any depth) is an instance of typeAndInit(t) and coerceTo gives exactly that instance
+   (Proofs/ObjNestRep.v) *)
+Theorem C17_nested_every_form_coerces :
+  forall t x v, nwf t = true -> ninst t v = true -> repb t x v = true -> coerce t x = Some v /\ ninst_init t x = true.
+Proof. exact rep_coerce. Qed.
+Print Assumptions C17_nested_every_form_coerces.
+
+(* hence named construction from ANY mixture of instances and init-hashes builds the SAME object (pos-named-equal of the
+   family at full strength): the hypothesis repb is evaluated by the correspondence on the argument hash of every named
+   construction of every run against the object the real code built *)
+Theorem C17_nested_every_form_builds_the_object :
+  forall n attrs h vals, nwf (NObj n attrs) = true -> ninst (NObj n attrs) (NVObj n vals) = true ->
+  repb (NObj n attrs) (NVHash h) (NVObj n vals) = true ->
+  named_new n attrs h = NOk (NVObj n vals) /\ nnew n attrs [NVHash h] = NOk (NVObj n vals).
+Proof. exact rep_named_new. Qed.
+Print Assumptions C17_nested_every_form_builds_the_object.
+
+(* and positional construction from every tuple that denotes the object (`posrep`: argument i is value i, in any denoting form
+   where the type of attribute i IS an Object type - the form positional-init-hash of the harness, after fix: 0abd0ef -, the
+   attributes not given hold their declared values) builds that same object *)
+Theorem C17_nested_every_tuple_builds_the_object :
+  forall n attrs args vals, nwf (NObj n attrs) = true -> ninst (NObj n attrs) (NVObj n vals) = true ->
+  posrep attrs args vals = true -> positional_new n attrs args = NOk (NVObj n vals).
+Proof. exact rep_positional_new. Qed.
+Print Assumptions C17_nested_every_tuple_builds_the_object.
 
 Definition ex_inner : nty :=
   NCons (s2l "x") None NInt (NCons (s2l "y") (Some (NVStr (s2l "y"))) NStr NNil).
@@ -426,4 +499,42 @@ Example C17_nested_nonvacuous :
   nnew (s2l "Outer") ex_outer [NVHash [(s2l "i", NVHash [])]] = NIllegalArguments /\
   (* the merge in the other direction (seeded change C17-m9) would keep the raw init-hash *)
   nhget (nhmerge [(s2l "i", in1)] [(s2l "i", ih)]) (s2l "i") = Some ih.
+Proof. vm_compute. repeat split; reflexivity. Qed.
+
+(* non-vacuity of the depth pass: the world Inner / Outer / Deep satisfies `nwf`, a two-level instance (an Outer directly and
+   below Array / Optional, the declared value of `n` once kept and once replaced) satisfies the hypotheses of
+   C17_nested_coerce_init_form / _forms_build_one_object / _init_hash_roundtrip; its init-hash form is no instance of the type
+   but of typeAndInit(type); InitHash drops exactly the attribute that holds its declared value *)
+Example C17_nested_roundtrip_nonvacuous :
+  let in1 := NVObj (s2l "Inner") [NVInt 1; NVStr (s2l "y")] in
+  let out1 := NVObj (s2l "Outer") [in1; NVInt 0] in
+  let out5 := NVObj (s2l "Outer") [in1; NVInt 5] in
+  let arr := NVArr [NVUndef; out5] in
+  let t := NObj (s2l "Deep") ex_deep in
+  let deep := NVObj (s2l "Deep") [out1; arr] in
+  nwf t = true /\ ninst t deep = true /\
+  ninst t (to_init t deep) = false /\ ninst_init t (to_init t deep) = true /\
+  to_init (NObj (s2l "Outer") ex_outer) out5
+    = NVHash [(s2l "i", NVHash [(s2l "x", NVInt 1); (s2l "y", NVStr (s2l "y"))]); (s2l "n", NVInt 5)] /\
+  coerce t (to_init t deep) = Some deep /\
+  zipv ex_deep [out1; arr] = [(s2l "o", out1); (s2l "k", arr)] /\
+  named_new (s2l "Deep") ex_deep (zipv ex_deep [out1; arr]) = NOk deep /\
+  positional_new (s2l "Deep") ex_deep [out1; arr] = NOk deep /\
+  nnew (s2l "Deep") ex_deep [NVHash (to_init_vals ex_deep [out1; arr])] = NOk deep /\
+  ninit_hash ex_outer [in1; NVInt 0] = [(s2l "i", in1)] /\
+  ninit_hash ex_outer [in1; NVInt 5] = [(s2l "i", in1); (s2l "n", NVInt 5)] /\
+  nnew (s2l "Outer") ex_outer [NVHash (ninit_hash ex_outer [in1; NVInt 0])] = NOk out1 /\
+  nnew (s2l "Deep") ex_deep [NVHash (ninit_hash ex_deep [out1; arr])] = NOk deep /\
+  (* a mixed form: o as an init-hash that leaves the defaulted n out and gives i as an instance, k with one element as an
+     instance and one as an init-hash that gives everything; it denotes deep, a form with another n does not *)
+  let mixed := [(s2l "k", NVArr [NVUndef; NVHash [(s2l "n", NVInt 5); (s2l "i", NVHash [(s2l "x", NVInt 1)])]]);
+                (s2l "o", NVHash [(s2l "i", in1)])] in
+  repb t (NVHash mixed) deep = true /\ ninst_init t (NVHash mixed) = true /\
+  nnew (s2l "Deep") ex_deep [NVHash mixed] = NOk deep /\
+  repb t (NVHash [(s2l "k", arr); (s2l "o", NVHash [(s2l "i", in1); (s2l "n", NVInt 7)])]) deep = false /\
+  repb t (to_init t deep) deep = true /\ repb t (NVHash (ninit_hash ex_deep [out1; arr])) deep = true /\
+  (* positionally: i as an init-hash, n left out *)
+  posrep ex_outer [NVHash [(s2l "x", NVInt 1)]] [in1; NVInt 0] = true /\
+  positional_new (s2l "Outer") ex_outer [NVHash [(s2l "x", NVInt 1)]] = NOk out1 /\
+  posrep ex_outer [NVHash [(s2l "x", NVInt 2)]] [in1; NVInt 0] = false.
 Proof. vm_compute. repeat split; reflexivity. Qed.
